@@ -359,4 +359,41 @@ open Mfi.Gen.Skel in
 theorem bankruptcy_eligibility_before_accrual :
     occursBefore handle_bankruptcy (· == .checkBankrupt) (isAccrue .bank) = true := by decide
 
+/-- a balance closure judges "dust" at the accrued share values, and leaves them behind -/
+theorem ix_close_at_accrued {e : Ix.Env} {b b' : Bank} {bal x' : Option Balance} {t : Int}
+    (h : Ix.closeBalance e b bal = .ok (b', x', t)) :
+    ∃ b1 x, accrueInterest b e.ir e.now = .ok b1 ∧ bal = some x ∧
+      ∃ r, closeBalanceOp b1 x e.now = .ok r ∧ b' = r.1 ∧ x' = some r.2 := by
+  unfold Ix.closeBalance at h
+  obtain ⟨b1, hb1, h⟩ := Res.bind_ok h
+  cases bal with
+  | none => simp [merr] at h
+  | some x =>
+    simp only at h
+    obtain ⟨r, hr, h⟩ := Res.bind_ok h
+    injection h with h; injection h with hb h; injection h with hx _
+    exact ⟨b1, x, hb1, rfl, r, hr, hb.symm, hx.symm⟩
+
+/-- **bankruptcy settles at the accrued share values**: whatever `lending_pool_handle_bankruptcy` books — the bad
+    debt it sizes, the insurance it draws, the loss it socialises, the debt it clears — is the settlement of the bank
+    ACCRUED to the current time; no part of it is computed from the share values of the last update. -/
+theorem ix_bankruptcy_at_accrued {ir : Interest.IrCalc} {now avail : Int} {b0 : Bank} {bal : Balance} {o : BankruptcyOut}
+    (h : Ix.bankruptcy ir now b0 bal avail = .ok o) :
+    ∃ b1, accrueInterest b0 ir now = .ok b1 ∧ settleBankruptcy b1 bal avail now = .ok o ∧
+      liabAmount b1 bal.l = .ok o.badDebt := by
+  unfold Ix.bankruptcy at h
+  obtain ⟨b1, hb1, h⟩ := Res.bind_ok h
+  refine ⟨b1, hb1, h, ?_⟩
+  unfold settleBankruptcy at h
+  obtain ⟨bd, hbd, h⟩ := Res.bind_ok h
+  obtain ⟨_, _, h⟩ := Res.bind_ok h
+  obtain ⟨_, _, h⟩ := Res.bind_ok h
+  obtain ⟨_, _, h⟩ := Res.bind_ok h
+  obtain ⟨_, _, h⟩ := Res.bind_ok h
+  obtain ⟨_, _, h⟩ := Res.bind_ok h
+  obtain ⟨_, _, h⟩ := Res.bind_ok h
+  injection h with h
+  subst h
+  exact hbd
+
 end Mfi.Props.C06
